@@ -116,7 +116,9 @@ def scenarios():
                       ("python-gapic-name=draft,metadata,python-gapic-name=shelves,python-gapic-namespace=Foo.Bar", "foo/bar/shelves_v1"),
                       # override values that are not identifiers: the directory is the lower-cased name with every other character made '_'
                       ("python-gapic-name=book_catalog", "acme/book_catalog_v1"), ("python-gapic-name=Book Catalog", "acme/book_catalog_v1"),
-                      ("python-gapic-name=my-lib", "acme/my_lib_v1")):
+                      ("python-gapic-name=my-lib", "acme/my_lib_v1"),
+                      # repeated namespace keys, one of them dotted: every value is split on '.'
+                      ("python-gapic-namespace=Foo.Bar,python-gapic-namespace=Baz", "foo/bar/baz/lab_v1")):
         cases += 1
         label = {"package": "acme.lab.v1", "option": opt}
         try:
